@@ -213,7 +213,7 @@ def build():
                     post_rewrite=[('bytes_sent_total.saturating_sub(self.prev_bytes_sent_total)', 'u64_saturating_sub(bytes_sent_total, self.prev_bytes_sent_total)', 1),
                                   ('nak_total.saturating_sub(self.prev_nak_total).max(0)', 'i32_max0(i32_saturating_sub(nak_total, self.prev_nak_total))', 1),
                                   ('(delta_bytes / ASSUMED_SRT_PAYLOAD_BYTES).min(u32::MAX as u64) as u32', 'u64_min_to_u32(delta_bytes / ASSUMED_SRT_PAYLOAD_BYTES)', 1),
-                                  ('sent_pkts.max(if lost_pkts > 0 { 1 } else { 0 })', 'u32_max(sent_pkts, if lost_pkts > 0 { 1 } else { 0 })', 1)],
+                                  ('sent_pkts.max(if lost_pkts > 0 { 1 } else { 0 })', 'u32_max(sent_pkts, if lost_pkts > 0 { 1 } else { 0 })', None)],
                     ensures=[
                         C('C16.cc.observe_traffic.first_call_only_sets_the_baseline', '!old(self).traffic_baseline_set ==> final(self).window() == old(self).window()'),
                         C('C16.cc.observe_traffic.a_quiet_tick_adds_no_sample',
